@@ -443,6 +443,11 @@ type CopyObjectResult struct {
 	XMLName      xml.Name    `xml:"CopyObjectResult"`
 	ETag         string      `xml:"ETag,omitempty"`
 	LastModified ContentTime `xml:"LastModified,omitempty"`
+
+	// If versioning is enabled on the destination bucket, this should be set
+	// to the version ID the copy created (see PutObjectResult). It is sent as
+	// the x-amz-version-id header, not in the body.
+	VersionID VersionID `xml:"-"`
 }
 
 // MFADeleteStatus is used by VersioningConfiguration.
